@@ -14,6 +14,10 @@ from .ref import geom
 
 
 def fl(lo, hi, **kw):
+    """Finite doubles in [lo, hi].  Subnormals are not generated (0.0 is): products of subnormal inputs underflow, so
+    no relative tolerance is meaningful for them and none of the properties concerns underflow (a thorough run of C11
+    had flagged 5e-324 vs 0.0 with a tolerance that had itself underflowed to 0)."""
+    kw.setdefault("allow_subnormal", False)
     return st.floats(min_value=lo, max_value=hi, allow_nan=False, allow_infinity=False, **kw)
 
 
